@@ -254,6 +254,9 @@ pub fn reply_frame(rng: &mut Rng, iface: &str, unit_out: bool, continues: bool) 
         // a method without outputs ignores the parameters of a reply that is not an error
         4 if !continues => ("{\"parameters\":5}".to_string(), if unit_out { "success-with-ignored-parameters" } else { "wrong-shape" }),
         5 if !continues => (format!("{{\"error\":\"{iface}.Failed\",\"parameters\":{{\"code\":\"nope\"}}}}"), "declared-error-wrong-parameters"),
+        // a success reply that carries no parameters although the method declares outputs (a progress tick, a bare
+        // end-of-stream marker): still a reply - the caller gets one item for it, which cannot be an error of the method
+        6 if !unit_out => (format!("{{{}}}", c.trim_start_matches(',')), "success-without-parameters"),
         _ => {
             if unit_out {
                 (format!("{{{}}}", c.trim_start_matches(',')), "success")
@@ -319,10 +322,13 @@ pub fn compare_stream(rep: &mut Report, prop: &str, ctx: &str, whats: &[&'static
                 .map(|w| match *w {
                     "success" | "success-with-ignored-parameters" => "ok",
                     "declared-error" | "declared-unit-error" => "err",
+                    // one item, whatever the method makes of a reply without the declared outputs - but not an error
+                    // the service never sent
+                    "success-without-parameters" => "failure|ok",
                     _ => "failure",
                 })
                 .collect();
-            if classes != want {
+            if classes.len() != want.len() || classes.iter().zip(&want).any(|(c, w)| !w.split('|').any(|x| x == *c)) {
                 rep.violation(&format!("{prop}/streaming-method-items-differ-from-replies"), format!("{ctx}: replies {whats:?} -> items {items:?}"), replay);
             } else {
                 rep.count("streams_ok");
